@@ -7,6 +7,42 @@ import sys
 import warnings
 
 
+CHIS_W = (1, 2, 4, 16, 10 ** 18)
+
+
+def stats(tree):
+    out = []
+    for chi in CHIS_W:
+        for late in (False, True):
+            t = tree.compressed_contract_stats(chi, compress_late=late)
+            out.append((int(t.flops), int(t.max_size), int(t.write), int(t.peak_size)))
+    return out
+
+
+def twins(job, inputs, output, size_dict):
+    """in-place refiners against their out-of-place twins, same start, same seed"""
+    from cotengra.pathfinders.path_compressed_greedy import GreedyCompressed
+
+    chi, seed, w = job["chi"], job["seed"], job["window_size"]
+    mini = "peak-compressed-%d" % chi
+    res = {"twins": []}
+    for name, kw in (("windowed_reconfigure", {"max_iterations": 4, "window_size": w}),
+                     ("simulated_anneal", {"tsteps": 3, "numiter": 3})):
+        t_out0 = GreedyCompressed(chi, seed=seed).search(inputs, output, size_dict)
+        t_in = GreedyCompressed(chi, seed=seed).search(inputs, output, size_dict)
+        t_out = getattr(t_out0, name)(minimize=mini, seed=seed, **kw)
+        ret = getattr(t_in, name + "_")(minimize=mini, seed=seed, **kw)
+        res["twins"].append({
+            "refiner": name,
+            "returns_self": ret is t_in,
+            "ssa_out": [list(map(int, s_)) for s_ in t_out.get_ssa_path()],
+            "ssa_in": [list(map(int, s_)) for s_ in t_in.get_ssa_path()],
+            "same_stats": stats(t_out) == stats(t_in),
+            "complete_in": bool(t_in.is_complete()),
+        })
+    return res
+
+
 def run_job(job):
     import cotengra as ctg
     from cotengra.pathfinders.path_compressed_greedy import GreedyCompressed, GreedySpan
@@ -27,6 +63,19 @@ def run_job(job):
         t0 = GreedyCompressed(chi, seed=seed).search(inputs, output, size_dict)
         kw = {"window_size": job["window_size"]} if method == "windowed" else {}
         tree = t0.windowed_reconfigure(minimize="peak-compressed-%d" % chi, max_iterations=3, seed=seed, **kw)
+    elif method == "hyper-reconf":
+        opt = ctg.HyperCompressedOptimizer(methods=["greedy-compressed", "greedy-span"], max_repeats=3, optlib="random",
+                                           parallel=False, progbar=False, minimize="peak-compressed-%d" % chi, seed=seed,
+                                           reconf_opts={"max_iterations": 3, "window_size": job["window_size"]})
+        tree = opt.search(inputs, output, size_dict)
+        # what the optimizer recorded for its best trial vs the same figure recomputed from an ORDERED rebuild
+        rebuilt = type(tree).from_path(inputs, output, size_dict, ssa_path=tree.get_ssa_path(),
+                                       objective="peak-compressed-%d" % chi)
+        st = rebuilt.compressed_contract_stats(chi, compress_late=False)
+        job["_best_score"] = [int(opt.best["size"]), int(opt.best["flops"]), int(opt.best["write"])]
+        job["_rebuilt_score"] = [int(st.peak_size), int(st.flops), int(st.write)]
+    elif method == "twins":
+        tree = None
     elif method == "array_contract_tree":
         opt = ctg.HyperCompressedOptimizer(methods=["greedy-compressed", "greedy-span"], max_repeats=3,
                                            optlib="random", parallel=False, progbar=False,
@@ -35,8 +84,23 @@ def run_job(job):
         tree = ctg.array_contract_tree(inputs, output, shapes=shapes, optimize=opt, canonicalize=False)
     else:
         raise ValueError(method)
+    if method == "twins":
+        return twins(job, inputs, output, size_dict)
     trav = [(sorted(p), sorted(l), sorted(r)) for p, l, r in tree.traverse()]
-    return {
+    extra = {}
+    if method == "hyper-reconf":
+        extra["hyper_best_score"] = job["_best_score"]
+        extra["hyper_rebuilt_score"] = job["_rebuilt_score"]
+    # ---- the tree must survive a state transfer: copy() keeps the ORDERED tree ------------------
+    tc = tree.copy()
+    extra["copy_same_ssa"] = [tuple(p) for p in tc.get_ssa_path()] == [tuple(p) for p in tree.get_ssa_path()]
+    extra["copy_same_traverse"] = [(sorted(p), sorted(l), sorted(r)) for p, l, r in tc.traverse()] == trav
+    extra["copy_same_stats"] = stats(tc) == stats(tree)
+    extra["copy_ssa"] = [list(map(int, s_)) for s_ in tc.get_ssa_path()]
+    # ... and rebuilding it from its own path gives the same ordered tree
+    tr = type(tree).from_path(inputs, output, size_dict, ssa_path=tree.get_ssa_path()) if hasattr(type(tree), "from_path") else tree
+    extra["rebuilt_same_stats"] = stats(tr) == stats(tree)
+    return dict(extra, **{
         "cls": type(tree).__name__,
         "N": tree.N,
         "is_complete": bool(tree.is_complete()),
@@ -45,7 +109,7 @@ def run_job(job):
         "ssa_surface": [list(map(int, s)) for s in tree.get_ssa_path_surface()],
         "ssa_default": [list(map(int, s)) for s in tree.get_ssa_path()],
         "inputs_kept": [list(t) for t in tree.inputs] == [list(t) for t in inputs],
-    }
+    })
 
 
 def main():
